@@ -411,3 +411,74 @@ def check_obs(env: Any, s: Any, obs: Any) -> List[str]:
     if m.shape != lg.shape or not np.array_equal(m, lg):
         out.append(f"obs-action_mask: shown {m.astype(int).tolist()} legal set {lg.astype(int).tolist()}")
     return out
+
+
+# ------------------------------------------------------------------------------------------ state injection
+def placement_states(env: Any, state0: Any, mode: str, tier: str) -> Tuple[Any, List[Dict[str, Any]]]:
+    """State injection: from an UNBATCHED reset state, every placement of the entities within the space the
+    generator can reach (food strictly inside the grid, agents on distinct cells that hold no uneaten food,
+    agent levels 1..max_agent_level, food levels 1..sum of the 3 lowest agent levels), so that every local
+    geometry (border, corner, two agents next to each other and to the food, level sums just below / at the
+    food's level) is exercised by ONE step with every joint action.
+      mode "pairs"   (2 agents, 1 food): food cell x ordered agent pair x level combination;
+                     quick: food on 3 representative inner cells x 5 level combinations, thorough: all inner
+                     cells x all 12 combinations;
+      mode "triples" (3 agents): the three agents on every ordered triple of distinct cells of the 2x4 window at
+                     the top-left corner (rows 0-1, columns 0-3); food and levels as generated.
+    Only `agents.position/level` and `food_items.position/level` are rewritten (loading False, nothing eaten);
+    root timesteps are stale (run with injected_roots=True)."""
+    g = _g(env)
+    s0 = tmap_np(state0)
+    n_agents = int(np.asarray(s0.agents.level).shape[0])
+    n_food = int(np.asarray(s0.food_items.level).shape[0])
+    cells = [(r, c) for r in range(g) for c in range(g)]
+    rows: List[Tuple[np.ndarray, np.ndarray, np.ndarray, np.ndarray]] = []
+    descs: List[Dict[str, Any]] = []
+    if mode == "pairs":
+        assert n_agents == 2 and n_food == 1
+        inner = [(r, c) for r in range(1, g - 1) for c in range(1, g - 1)]
+        food_cells = inner if tier == "thorough" else [(1, 1), (1, g // 2), (g // 2, g // 2)]
+        max_lvl = int(env._generator.max_agent_level)
+        combos = [(a, b, f) for a in range(1, max_lvl + 1) for b in range(1, max_lvl + 1) for f in range(1, a + b + 1)]
+        if tier != "thorough":
+            combos = [c for c in combos if c in ((1, 1, 1), (1, 1, 2), (1, 2, 3), (2, 1, 2), (2, 2, 4))]
+        for fc in food_cells:
+            free = [c for c in cells if c != fc]
+            for a0 in free:
+                for a1 in free:
+                    if a1 == a0:
+                        continue
+                    for la, lb, lf in combos:
+                        rows.append((np.array([a0, a1]), np.array([la, lb]), np.array([fc]), np.array([lf])))
+                        descs.append({"food": [list(fc)], "agents": [list(a0), list(a1)], "agent_levels": [la, lb],
+                                      "food_levels": [lf]})
+    elif mode == "triples":
+        assert n_agents == 3
+        fpos = [tuple(int(v) for v in p) for p in np.asarray(s0.food_items.position)]
+        window = [(r, c) for r in range(2) for c in range(4) if (r, c) not in fpos]
+        import itertools
+
+        for tri in itertools.permutations(window, 3):
+            rows.append((np.array(tri), np.asarray(s0.agents.level), np.asarray(s0.food_items.position),
+                         np.asarray(s0.food_items.level)))
+            descs.append({"agents": [list(t) for t in tri]})
+    else:
+        raise ValueError(mode)
+    n = len(rows)
+    apos = np.stack([r[0] for r in rows]).astype(np.asarray(s0.agents.position).dtype)
+    alev = np.stack([r[1] for r in rows]).astype(np.asarray(s0.agents.level).dtype)
+    fposs = np.stack([r[2] for r in rows]).astype(np.asarray(s0.food_items.position).dtype)
+    flev = np.stack([r[3] for r in rows]).astype(np.asarray(s0.food_items.level).dtype)
+    rep = lambda x: np.repeat(np.asarray(x)[None], n, axis=0)  # noqa: E731
+    agents = s0.agents.replace(id=rep(s0.agents.id), position=apos, level=alev,
+                               loading=np.zeros((n, n_agents), bool))
+    food = s0.food_items.replace(id=rep(s0.food_items.id), position=fposs, level=flev,
+                                 eaten=np.zeros((n, n_food), bool))
+    states = s0.replace(agents=agents, food_items=food, step_count=rep(s0.step_count), key=rep(s0.key))
+    return states, descs
+
+
+def tmap_np(tree: Any) -> Any:
+    import jax
+
+    return jax.tree_util.tree_map(lambda x: np.asarray(x), tree)
